@@ -149,6 +149,24 @@ def gen_scenario(batch_seed, i, tier):
             else:
                 spec = ops.gen_cli(rng, name)
             threads[t].append(spec)
+    if sequential and not focus and rng.random() < 0.45:
+        # idempotence sweep: many automatically configured symbols (automatic version, level boosting, mask choice),
+        # each re-encoded with what it reports
+        threads = [[]]
+        makes = []
+        for k in range(rng.randint(10, 28)):
+            m = ops.gen_make(rng, 's%d' % k, small=True, allow_bad=False)
+            while m['fn'] in ('make_sequence',) or m['fn'].startswith('helpers.') or isinstance(core.dec(m['content']), list):
+                m = ops.gen_make(rng, 's%d' % k, small=True, allow_bad=False)
+            kw = core.dec(m['kw'])
+            if rng.random() < 0.85:
+                kw.pop('mask', None)
+            if rng.random() < 0.5:
+                kw.pop('version', None)
+            m['kw'] = core.enc(kw)
+            makes.append(m)
+            threads[0].append(m)
+            threads[0].append({'op': 'reencode', 'sym': m['id'], 'symspec': {'fn': m['fn'], 'content': m['content'], 'kw': m['kw']}, 'name': 't0r%d' % k})
     gran = 'instr' if (trace and rng.random() < 0.15) else 'line'
     kind = rng.weighted([('geometric', 60), ('fixed', 10), ('starve', 15), ('sequential', 15)])
     mean = rng.choice((3, 10, 40, 150, 600, 2500, 10000, 40000))
